@@ -939,6 +939,9 @@ def c17_cfg_to_bytes(run):
                 bad = z3.Or(*alts) if alts else z3.BoolVal(False)
                 if smt.prove(list(path.pc), bad)["verdict"] == "proved":
                     continue
+            if r["raised"].startswith("NameError"):
+                run.obligation(name, "out-of-subset", detail="module-level name not supplied by the harness: " + r["raised"])
+                return
             why = "raises " + r["raised"]
             break
         ret = r["goals"]
